@@ -124,7 +124,8 @@ def cases(draw):
                 kind = draw(st.sampled_from(list(PRIMS) + ["pow", "pow"]))
                 k = draw(st.sampled_from(POWS)) if kind == "pow" else None
                 a, b = draw(st.sampled_from(AFF))
-            terms.append({"form": form, "kind": kind, "k": k, "a": a, "b": b, "names": [name]})
+            terms.append({"form": form, "kind": kind, "k": k, "a": a, "b": b, "names": [name],
+                          "scale": draw(st.sampled_from([1, 1, 1, 0.5, 3, -0.1, -1]))})
         else:
             if len(env["vectors"]) >= len(vnames):
                 continue
@@ -136,10 +137,11 @@ def cases(draw):
             k = draw(st.sampled_from(POWS)) if form == "vec_pow" else None
             names = [f"{name}[{i}]" for i in range(n)]
             terms.append({"form": form, "kind": kind, "k": k, "vec": name, "n": n, "rev": rev,
-                          "names": names[::-1] if rev else names})
+                          "names": names[::-1] if rev else names,
+                          "scale": draw(st.sampled_from([1, 1, 1, 0.5, 3, -0.1, -1]))})
     if not terms:
         env["scalars"].append({"name": "x"})
-        terms.append({"form": "scalar", "kind": "abs", "k": None, "a": 1.0, "b": 0.0, "names": ["x"]})
+        terms.append({"form": "scalar", "kind": "abs", "k": None, "a": 1.0, "b": 0.0, "names": ["x"], "scale": 1})
     # point: per coordinate a class
     point, pclass = {}, {}
     for t in terms:
@@ -192,7 +194,21 @@ def strategy(tier):
     return cases()
 
 
+def _scaled(t, r):
+    c = t.get("scale", 1)
+    if c == 1:
+        return r
+    if c == -1:
+        return ["un", "neg", r]
+    return ["bin", "*", ["const", "pyfloat", c], r] if c > 0 else ["bin", "*", r, ["const", "pyfloat", c]]
+
+
 def term_recipes(t):
+    a, b = _term_recipes(t)
+    return _scaled(t, a), _scaled(t, b)
+
+
+def _term_recipes(t):
     """(vectorised-or-written recipe, long-hand recipe)"""
     if t["form"] in ("scalar", "regular"):
         arg = ["var", t["names"][0]]
@@ -225,6 +241,7 @@ def expected_entries(case):
     out = {}
     pt = case["point"]
     for t in case["terms"]:
+        sc = np.float64(t.get("scale", 1))
         if t["form"] in ("scalar", "regular"):
             nm = t["names"][0]
             u = t["a"] * pt[nm] + t["b"]
@@ -235,8 +252,8 @@ def expected_entries(case):
             else:
                 f1, f2 = PRIMS[t["kind"]][0], PRIMS[t["kind"]][1]
             with np.errstate(all="ignore"):
-                g = np.float64(f1(u)) * t["a"]
-                h = (np.float64(f2(u)) * t["a"] * t["a"]) if f2 is not None else None
+                g = np.float64(f1(u)) * t["a"] * sc
+                h = (np.float64(f2(u)) * t["a"] * t["a"] * sc) if f2 is not None else None
             out[nm] = (case["pclass"][nm], float(g), None if h is None else float(h))
         elif t["form"] in ("vec_un", "vec_pow"):
             for nm in t["names"]:
@@ -245,7 +262,8 @@ def expected_entries(case):
                     f1, f2 = _pow_d(t["k"])
                 else:
                     f1, f2 = PRIMS[t["kind"]][0], PRIMS[t["kind"]][1]
-                out[nm] = (case["pclass"][nm], float(f1(u)), float(f2(u)))
+                with np.errstate(all="ignore"):
+                    out[nm] = (case["pclass"][nm], float(np.float64(f1(u)) * sc), float(np.float64(f2(u)) * sc))
         elif t["form"] == "norm2":
             xs = np.array([pt[nm] for nm in t["names"]])
             with np.errstate(all="ignore"):
@@ -253,12 +271,12 @@ def expected_entries(case):
                 g = xs / nrm
             cls = "singular" if nrm == 0 else "regular"
             for nm, gv in zip(t["names"], g):
-                out[nm] = (cls, float(gv), None)
+                out[nm] = (cls, float(gv * sc), None)
         else:  # norm1
             for nm in t["names"]:
                 u = pt[nm]
                 with np.errstate(all="ignore"):
-                    g = np.float64(u) / np.abs(np.float64(u))
+                    g = np.float64(u) / np.abs(np.float64(u)) * sc
                 out[nm] = ("singular" if u == 0 else "regular", float(g), 0.0 if u != 0 else float("nan"))
     return out
 
@@ -345,6 +363,10 @@ def check(case):
                     if not (abs(H[i, i] - h) <= 1e-8 * (1 + abs(h))):
                         return Result.violation("regular-entry-changed:compile_hessian",
                                                 f"{tag}: H[{nm},{nm}] = {H[i, i]!r}, expected {h!r}; {desc}", classes)
+                if cls == "singular" and h is not None and math.isinf(h) and abs(H[i, i]) != LARGE:
+                    return Result.violation("unbounded-not-1e16:compile_hessian",
+                                            f"{tag}: H[{nm},{nm}] = {H[i, i]!r}, the second derivative is unbounded there "
+                                            f"(expected +/-1e16); {desc}", classes)
         for what in ("compile_gradient", "compile_jacobian"):
             a, c = outs["vectorised"][what], outs["longhand"][what]
             special = (np.abs(a) == LARGE) | (np.abs(c) == LARGE) | (a == 0) | (c == 0)
@@ -359,4 +381,16 @@ def check(case):
     return Result.ok(has_sing and has_reg, classes)
 
 
-KNOWN = {}
+def _known_recip_hessian(case, res):
+    """C19-recip-hessian: Hessian diagonal of a '/'-quotient at its pole comes back 0 instead of +/-1e16"""
+    if not res.label.startswith("unbounded-not-1e16:compile_hessian"):
+        return False
+    import re
+    m = re.search(r"H\[(.+?),\1\]", res.detail) or re.search(r"H\[([^\]]+?),", res.detail)
+    if not m:
+        return False
+    nm = m.group(1)
+    return any(t["kind"] == "recip" and nm in t["names"] for t in case["terms"])
+
+
+KNOWN = {"C19-recip-hessian": _known_recip_hessian}
